@@ -108,7 +108,10 @@ class HeapBuilder:
                 arr = self.fields.get("$cls", z3.K(z3.IntSort(), z3.IntVal(0)))
                 self.fields["$cls"] = z3.Store(arr, z3.IntVal(i), z3.IntVal(self.ctx.E.classes.cid("abs:" + ty.name)))
             for f, fty in ty.fields.items():
-                v = getattr(obj, f)
+                try:
+                    v = getattr(obj, f)
+                except AttributeError:
+                    continue            # an attribute the object does not have (yet): a blank object under construction
                 arr = self.fields.get(f, z3.K(z3.IntSort(), Z.NONE))
                 self.fields[f] = z3.Store(arr, z3.IntVal(i), self.encode(v, fty))
             return Z.mk_ref(i)
